@@ -547,7 +547,8 @@ def _rule_letters(rule):
 class NativeDigest(NativeCheck):
     name = 'digest'
     props = ('C10',)
-    functions = (f'{AAR}:AminoAcidSeqRecord.iter_enzymatic_cleave_sites', 'lemma:expasy_rule_semantics', 'lemma:site_range_pairing')
+    functions = (f'{AAR}:AminoAcidSeqRecord.iter_enzymatic_cleave_sites', f'{AAR}:AminoAcidSeqRecord.enzymatic_cleave',
+                 'lemma:expasy_rule_semantics', 'lemma:site_range_pairing')
     bounded_for = 'enzymatic_cleave (miscleavage loops, N-terminal M removal, limits) equals the digest spec; site/range pairing at run time'
     bound = ('all 36 rules; random strings of length 0-24 over the rule-relevant residues + A,G,M,*,X; miscleavage 0-3, cds_start_nf both; '
              'quick 40 strings per rule, thorough 600')
@@ -887,3 +888,185 @@ class PepStr:
 class Replaced:
     def __init__(self, of, a, b):
         self.of, self.a, self.b = of, a, b
+
+
+# ----------------------------------------------------------------------------
+# O4: enzymatic_cleave — the miscleavage double loop, N-terminal M removal, limits
+# ----------------------------------------------------------------------------
+from pyvc.symlist import SymList
+
+
+class SubSeqObj:
+    """self.seq[lo:hi] of the protein (half-open), known through predicates of (lo, hi)"""
+    def __init__(self, st, lo, hi):
+        self.st, self.lo, self.hi = st, lo, hi
+
+    def sym_len(self, I):
+        return self.hi - self.lo
+
+    def sym_contains(self, I, item):
+        if item == 'X':
+            return self.st.hasX(self.lo, self.hi)
+        raise Unsupported(f'{item!r} in peptide')
+
+    def sym_method(self, I, name, a, k):
+        if name == 'startswith' and a == ['M']:
+            return z3.And(self.hi > self.lo, self.st.isM(self.lo))
+        raise Unsupported(f'seq.{name}')
+
+
+@register
+class EnzymaticCleave(Contract):
+    path, qualname, props = AAR, 'AminoAcidSeqRecord.enzymatic_cleave', ('C10',)
+    assumptions = ('modular: find_all_enzymatic_cleave_sites returns the ascending site list of iter_enzymatic_cleave_sites (IterSites), sites in [1, len]',
+                   'assumed: self[a:b] is the sub-record of residues a..b-1; Bio molecular_weight is a function of the sub-sequence')
+
+    def setup(self, I):
+        e = I.e
+        st = types.SimpleNamespace()
+        st.L = e.int('L')
+        st.m = e.int('n_sites')
+        st.site = z3.Array('site', I_, I_)
+        j, j2 = z3.Ints('sj sj2')
+        e.assume(z3.And(st.L >= 0, st.m >= 0))
+        e.assume(z3.ForAll([j], z3.Implies(z3.And(0 <= j, j < st.m), z3.And(1 <= st.site[j], st.site[j] <= st.L))))
+        e.assume(z3.ForAll([j, j2], z3.Implies(z3.And(0 <= j, j < j2, j2 < st.m), st.site[j] < st.site[j2])))
+        st.hasX = z3.Function('has_X', I_, I_, B_)
+        st.isM = z3.Function('is_M', I_, B_)
+        st.mw = z3.Function('mol_weight', I_, I_, z3.RealSort())
+        st.misc, st.min_mw = e.int('miscleavage'), e.real('min_mw')
+        st.min_len, st.max_len = e.int('min_length'), e.int('max_length')
+        st.nf = e.bool('cds_start_nf')
+        st.self = SymObj('AminoAcidSeqRecord', seq=SubSeqObj(st, z3.IntVal(0), st.L), whole=True, lo=z3.IntVal(0), hi=st.L)
+        st.calls = []          # ghost: (lo, hi) of every update_peptides call, in order
+        st.kept = []
+        st.vis = z3.Function('vis0', I_, I_, B_)
+        x, y = z3.Ints('vx vy')
+        e.assume(z3.ForAll([x, y], z3.Not(st.vis(x, y))))
+        st.args = [st.self]
+        st.kwargs = dict(rule='RULE', exception=None, miscleavage=st.misc, min_mw=st.min_mw, min_length=st.min_len,
+                         max_length=st.max_len, cds_start_nf=st.nf)
+        st.env = None
+        self._cur = st
+        return st
+
+    # S = [0] + sites + [L];  n = m + 2
+    def S(self, a):
+        st = self._cur
+        return z3.If(a == 0, 0, z3.If(a == st.m + 1, st.L, st.site[a - 1]))
+
+    def target(self, a, b):
+        st = self._cur
+        return z3.And(0 <= a, a < b, b <= st.m + 1, b - a - 1 <= st.misc)
+
+    @property
+    def models(self):
+        return (self.install_models,)
+
+    def install_models(self, reg):
+        c = self
+        reg.protocol_('AminoAcidSeqRecord', '__len__', lambda I, o: o.fields['hi'] - o.fields['lo'])
+        reg.method_('AminoAcidSeqRecord', 'find_all_enzymatic_cleave_sites',
+                    lambda I, o, a, k: FnView(c._cur.m, lambda i: c._cur.site[i if is_z3(i) else z3.IntVal(i)], tag='sites'))
+
+        def getslice(I, o, lo, hi):
+            st = c._cur
+            n = o.fields['hi'] - o.fields['lo']
+            a, b = I.clip_slice(lo, hi, n)
+            nlo = o.fields['lo'] + a
+            nhi = z3.If(o.fields['lo'] + b >= nlo, o.fields['lo'] + b, nlo)
+            return SymObj('AminoAcidSeqRecord', seq=SubSeqObj(st, nlo, nhi), lo=nlo, hi=nhi, whole=False)
+        reg.protocol_('AminoAcidSeqRecord', '__getslice__', getslice)
+
+        def mol_weight(I, a, k):
+            s = a[0]
+            return c._cur.mw(s.lo, s.hi)
+        reg.ext_('Bio.SeqUtils.molecular_weight', mol_weight)
+        reg.ext_('SeqUtils.molecular_weight', mol_weight)
+
+        def update_hook(I, closure, a, k):
+            st = c._cur
+            pep = a[0]
+            lo, hi = pep.fields['lo'], pep.fields['hi']
+            st.calls.append((lo, hi))
+            plist = closure.env.lookup('peptides')
+            n0 = plist.length if isinstance(plist, SymList) else len(plist)
+            I.call_closure(closure, a, k)
+            plist = closure.env.lookup('peptides')
+            n1 = plist.length if isinstance(plist, SymList) else len(plist)
+            keep = z3.And(z3.Not(st.hasX(lo, hi)), st.mw(lo, hi) > st.min_mw, hi - lo >= st.min_len, hi - lo <= st.max_len)
+            I.e.prove('C10/O4/kept-iff-no-X-and-mass-above-minimum-and-length-in-range', z3.If(keep, n1 == n0 + 1, n1 == n0))
+            return None
+        reg._closures['update_peptides'] = update_hook
+
+    # ---- loops: 0 outer (start), 1 inner (end)
+    def sites_ok(self, env):
+        st = self._cur
+        s = env['sites']
+        j = z3.Int('qj')
+        return [('sites=[0]+sites+[len]', z3.And(s.length == st.m + 2,
+                 z3.ForAll([j], z3.Implies(z3.And(0 <= j, j <= st.m + 1), s.arr[j] == self.S(j)))))]
+
+    def outer_inv(self, I, env, k):
+        st = self._cur
+        x, y = z3.Ints('ox oy')
+        return self.sites_ok(env) + [
+            ('start-in-range', z3.And(0 <= env['start'], env['start'] <= st.m + 1)),
+            ('visited=all-pairs-with-earlier-start',
+             z3.ForAll([x, y], st.vis(x, y) == z3.And(self.target(x, y), x < env['start'])))]
+
+    def inner_inv(self, I, env, k):
+        st = self._cur
+        x, y = z3.Ints('ix iy')
+        a, b = env['start'], env['end']
+        return self.sites_ok(env) + [
+            ('end-in-range', z3.And(a < b, b <= st.m + 2, 0 <= a, a <= st.m)),
+            ('visited=earlier-starts-plus-this-start-up-to-end',
+             z3.ForAll([x, y], st.vis(x, y) == z3.Or(z3.And(self.target(x, y), x < a),
+                                                      z3.And(x == a, a < y, y < b, self.target(x, y)))))]
+
+    def havoc(self, I, env, k):
+        st = self._cur
+        st.vis = z3.Function(I.e.fresh_name('vis'), I_, I_, B_)
+        env['peptides'] = SymList(I, 'peptides', unwrap=lambda v: I.e.int('pep_id'))
+        if not isinstance(env['sites'], SymList):
+            raise Unsupported('sites is not a list of symbolic length')
+        env['sites'] = env['sites'].sym_havoc(I, 'sites')
+
+    def inner_on_head(self, I, env, k):
+        st = self._cur
+        st.c0 = len(st.calls)
+        st.env = env
+
+    def inner_step(self, I, env, k):
+        st = self._cur
+        a, b = env['start'], env['end'] - 1      # `end += 1` already executed
+        new = st.calls[st.c0:]
+        lo, hi = self.S(a), self.S(b)
+        full = len(new) >= 1 and z3.simplify(z3.And(new[-1][0] == lo, new[-1][1] == hi))
+        trimmed = z3.And(a == 0, z3.Not(st.nf), hi > lo, st.isM(lo))
+        out = [('the-product-S[start]:S[end]-is-offered', full),
+               ('pair-is-within-the-miscleavage-limit', self.target(a, b))]
+        if len(new) == 2:
+            out.append(('M-removed-form-offered-only-for-a-complete-N-terminus-starting-with-M', trimmed))
+            out.append(('M-removed-form-is-the-product-without-its-first-residue',
+                        z3.simplify(z3.And(new[0][0] == lo + 1, new[0][1] == hi))))
+        else:
+            out.append(('M-removed-form-offered-whenever-the-N-terminal-product-starts-with-M', z3.And(len(new) == 1, z3.Not(trimmed))))
+        # ghost update of the visited relation
+        old = st.vis
+        nv = z3.Function(I.e.fresh_name('vis'), I_, I_, B_)
+        x, y = z3.Ints('gx gy')
+        I.e.assume(z3.ForAll([x, y], nv(x, y) == z3.Or(old(x, y), z3.And(x == a, y == b))))
+        st.vis = nv
+        return out
+
+    @property
+    def loops(self):
+        return {0: LoopSpec(inv=self.outer_inv, havoc=self.havoc),
+                1: LoopSpec(inv=self.inner_inv, havoc=self.havoc, on_head=self.inner_on_head, step=self.inner_step)}
+
+    def post_return(self, I, st, ret):
+        x, y = z3.Ints('px py')
+        I.e.prove('C10/O4/every-pair-of-cut-points-within-the-miscleavage-limit-is-digested-exactly-those',
+                  z3.ForAll([x, y], st.vis(x, y) == self.target(x, y)))
